@@ -287,3 +287,80 @@ Example C06_ex_k :
   firstn 3 (c06_runk true true PFifo ex_es [] [] 0 5 0 ex_steps) = [1; 1; 1] /\
   c06_runk true true PFifo ex_es [] [] 0 5 0 ex_steps = c06_run PFifo ex_es [] [] 0 5 0 ex_steps.
 Proof. exact end_to_end_k_ex. Qed.
+
+From PV Require Import gen.CaptureGen Extract.ProofsTieSend.
+From PV Require Import Queue.TieLib Queue.TieLibC04 gen.QueueStepGen Queue.ProofsTie Queue.ProofsTieC04 EndToEnd.ProofsTie.
+
+(* ======================================================================================
+   COMPOSITION OVER THE GENERATED DEFINITIONS (coq/EndToEnd/ProofsTie.v).  Both components are regenerated from the
+   source on every run: the queue operations (gen/QueueStepGen.v from psiaudio/queue.py: g_pop_buffer / g_pause /
+   g_resume, Props/C02.v and C04.v, theorems C0x_source_..) and one whole send of extract_epochs (gen/CaptureGen.v from
+   psiaudio/pipeline.py: extract_epochs_send, Props/C05.v, C05_source_send).  source_run_steps executes a combined schedule
+   with THESE: a queue step calls the generated method on the queue object (what it notifies goes to the deques), an
+   acquisition step hands the generated send the chunk of the device buffer and the waiting notifications; after a
+   send has raised, the generator is dead.  oracle_ok: shuffled blocks of a blocked-random queue hold indices >= 0.
+   ====================================================================================== *)
+
+(* for EVERY schedule from the initial states of the theorems above: the generated composition is the hand-written
+   composition followed by the model extractor's run (sout_of: a model output as an output of the generated send) *)
+Theorem C06_source_run_steps_is_model : forall p es ch pm B k X steps,
+  wf_queue p es = true -> oracle_ok p pm -> 0 <= B ->
+  source_run_steps B k X (cinit (qinit p es ch pm)) (Some (extract_epochs_init true)) steps =
+  match run_steps all_rep X (cinit (qinit p es ch pm)) steps with
+  | None => None
+  | Some (st, fs) => Some (st, map sout_of (run B k fs))
+  end.
+Proof. exact source_run_steps_is_model. Qed.
+Print Assumptions C06_source_run_steps_is_model.
+
+(* one queue step: the generated operation is the model's wherever the queue invariants hold, and keeps them *)
+Theorem C06_source_qstep : forall p es st o, qinv p es (s_q st) ->
+  source_qstep st o = qstep all_rep st o /\
+  (forall st1, qstep all_rep st o = Some st1 -> qinv p es (s_q st1)).
+Proof. exact source_qstep_is_qstep. Qed.
+Print Assumptions C06_source_qstep.
+
+(* C06_end_to_end over the generated composition: no generated send raises, and the generated sends have delivered
+   exactly one epoch per kept trial whose window has been acquired, each the trial's waveform followed by silence *)
+Theorem C06_source_end_to_end : forall p es ch pm B k X steps st outs,
+  wf_queue p es = true -> oracle_ok p pm -> 0 <= B ->
+  minlen es = true -> forallb (fun e => e_len e <=? x_n X) es = true ->
+  x_K X = zlen es -> x_pre X = 0 ->
+  wf_steps all_rep (cinit (qinit p es ch pm)) steps = true ->
+  source_run_steps B k X (cinit (qinit p es ch pm)) (Some (extract_epochs_init true)) steps = Some (st, outs) ->
+  s_notes st = [] ->
+  poststim_fits es (x_n X) (s_added st) (live_of (s_q st)) = true ->
+  Forall (fun o => s_raised o = false) outs /\
+  s_delivered outs = map (epoch_item X es) (filter (complete (x_n X) (s_acq st)) (live_of (s_q st))).
+Proof. exact source_end_to_end. Qed.
+Print Assumptions C06_source_end_to_end.
+
+(* C06_trials_in_stream over the stream the generated queue operations have played *)
+Theorem C06_source_trials_in_stream : forall p es ch pm B k X steps st outs,
+  wf_queue p es = true -> oracle_ok p pm -> 0 <= B ->
+  wf_steps all_rep (cinit (qinit p es ch pm)) steps = true ->
+  source_run_steps B k X (cinit (qinit p es ch pm)) (Some (extract_epochs_init true)) steps = Some (st, outs) ->
+  let q := s_q st in let P := s_P st in
+  (forall k t0 j, In (k, t0) (live_of q) -> 0 <= j < len_of es k -> t0 + j < q_samples q ->
+                  znth P (t0 + j) = Some (OWave k j)) /\
+  disjoint_live es (live_of q) /\
+  (forall k t0, In (k, t0) (live_of q) -> In (k, t0) (s_added st) /\ 0 <= t0 /\
+                (t0 + len_of es k <= q_samples q \/ in_progress q = true)) /\
+  (forall s x, znth P s = Some x ->
+               x = OZero \/ exists k t0, In (k, t0) (s_added st) /\ x = OWave k (s - t0) /\
+                                          t0 <= s < t0 + len_of es k).
+Proof. exact source_trials_in_stream. Qed.
+Print Assumptions C06_source_trials_in_stream.
+
+(* The hypotheses are satisfiable: the schedule ex_steps above, run with the generated queue operations and the
+   generated send. *)
+Example C06_source_ex :
+  oracle_ok PFifo [] /\
+  match source_run_steps 0 (mkkind false false) ex_X (cinit (qinit PFifo ex_es [] [])) (Some (extract_epochs_init true)) ex_steps with
+  | Some (st, outs) =>
+    s_notes st = [] /\ poststim_fits ex_es 5 (s_added st) (live_of (s_q st)) = true /\
+    live_of (s_q st) = [(0, 2); (0, 9); (1, 14)] /\ forallb (fun o => negb (s_raised o)) outs = true /\
+    map i_data (s_delivered outs) = [[1; 65; 129; 0; 0]; [1; 65; 129; 0; 0]; [2; 66; 0; 0; 0]]
+  | None => False
+  end.
+Proof. split; [intros H; discriminate|]. vm_compute. repeat split; reflexivity. Qed.
